@@ -103,6 +103,55 @@ func evolve(r *kit.Rng, s schema, dropped *[]string) schema {
 	return n
 }
 
+// growBefore adds a document whose name sorts before an existing one (so that, enumerated
+// earlier, it would take that one's ID if the stored IDs were lost), possibly also one after
+func growBefore(r *kit.Rng, s schema) schema {
+	n := cloneSchema(s)
+	max := ""
+	for _, d := range n.Docs {
+		if d.Name > max {
+			max = d.Name
+		}
+	}
+	var before []string
+	for _, u := range docUniverse {
+		if u < max && n.has(u) < 0 {
+			before = append(before, u)
+		}
+	}
+	if len(before) > 0 {
+		n.Docs = append(n.Docs, genDoc(r, kit.Pick(r, before)))
+	} else {
+		n.Docs = append(n.Docs, genDoc(r, "a0"))
+	}
+	if r.Chance(1, 3) {
+		u := kit.Pick(r, docUniverse)
+		if n.has(u) < 0 {
+			n.Docs = append(n.Docs, genDoc(r, u))
+		}
+	}
+	return n
+}
+
+// the in-process retries that follow a start carrying an injected failure: the same process asks
+// for the application again (same definition, or a grown one), possibly failing once more
+func retriesAfter(r *kit.Rng, cur *schema) []*stepSpec {
+	var out []*stepSpec
+	for i, n := 0, 1+r.Intn(2); i < n; i++ {
+		st := &stepSpec{Kind: "retry"}
+		if r.Chance(1, 4) {
+			*cur = growBefore(r, *cur)
+			st.Schema = ptr(cloneSchema(*cur))
+		}
+		if i < n-1 || r.Chance(1, 5) {
+			st.Fault = genFault(r)
+		}
+		out = append(out, st)
+	}
+	out[len(out)-1].Puts = pickPuts(r, *cur)
+	return out
+}
+
 func pickPuts(r *kit.Rng, s schema) []string {
 	var p []string
 	for _, d := range s.Docs {
@@ -139,7 +188,9 @@ func need(s schema) (q, c, sg int) {
 //
 //	history   - version history with drops / re-adds / renames, no failures
 //	interrupt - an injected failure at the first store (rows batch or version row), then retries
-//	            with the same or a different schema, then more versions
+//	            (new processes) with the same or a different schema, then more versions
+//	retry     - failed starts retried inside the same process (same registry objects), then a
+//	            new process whose schema grew by a name enumerated before the old ones
 //	limit     - seeded rows next to an ID limit
 //	malformed - stored rows / versions the code must refuse, renames that must be refused
 func genScenario(r *kit.Rng, backend, kind string) *scenario {
@@ -206,10 +257,22 @@ func genScenario(r *kit.Rng, backend, kind string) *scenario {
 				}
 				if r.Chance(1, 4) { // a second failure before the store goes through
 					sc.Steps = append(sc.Steps, &stepSpec{Kind: "start", Schema: ptr(cloneSchema(cur)), Fault: genFault(r)})
+					if r.Chance(1, 2) {
+						sc.Steps = append(sc.Steps, retriesAfter(r, &cur)...)
+					}
 				}
 				st = &stepSpec{Kind: "start", Schema: ptr(cloneSchema(cur)), Puts: pickPuts(r, cur)}
 			} else if r.Chance(1, 4) {
 				st.Fault = genFault(r) // later failures: harmless once the version row exists
+			}
+		case "retry":
+			// a failed start retried inside the process, then a new process whose schema has
+			// grown by a name enumerated before the old ones
+			if first || r.Chance(1, 3) {
+				st.Fault = genFault(r)
+				if first && r.Chance(2, 3) {
+					st.Fault.Point = "batch"
+				}
 			}
 		case "history", "limit", "malformed":
 			if !first && r.Chance(1, 10) {
@@ -218,6 +281,12 @@ func genScenario(r *kit.Rng, backend, kind string) *scenario {
 		}
 		first = false
 		sc.Steps = append(sc.Steps, st)
+		if st.Fault != nil && (kind == "retry" || r.Chance(1, 3)) {
+			sc.Steps = append(sc.Steps, retriesAfter(r, &cur)...)
+			if kind == "retry" {
+				cur = growBefore(r, cur)
+			}
+		}
 		// a rename between versions
 		renameChance := 3
 		if kind == "malformed" {
@@ -257,11 +326,13 @@ func ptr[T any](x T) *T { return &x }
 
 func kindOf(i int) string {
 	switch i % 10 {
-	case 0, 1, 2, 3:
+	case 0, 1, 2:
 		return "history"
-	case 4, 5, 6:
+	case 3, 4:
 		return "interrupt"
-	case 7, 8:
+	case 5, 6, 7:
+		return "retry"
+	case 8:
 		return "limit"
 	}
 	return "malformed"
